@@ -234,7 +234,7 @@ def run(tier):
     for m in mols:
         if any(d.implicit for t in m.tokens() for d in t.descs):
             continue   # automatic insertion is C01's / the molecule syntax's matter
-        for style, ws in ((0, ""), (1, " "), (2, ""), (3, " ")):
+        for style, ws in ((0, ""), (1, " "), (2, ""), (3, " "), (4, "")):        # style 4: every weight in exponent notation (2.000000e+00)
             text = m.text(style=style, ws=ws)
             n_mol += 1
             for key, msg in check_molecule(g, m, text):
